@@ -17,11 +17,11 @@
 (***************************************************************************)
 EXTENDS ScannerApi
 
-VARIABLE l            \* index of the next event to explain
+VARIABLE pos          \* index of the next event to explain
 
-tvars == <<scanners, iters, cache, l>>
+tvars == <<scanners, iters, cache, pos>>
 
-TInit == Init /\ l = 1
+TInit == Init /\ pos = 1
 
 HasIt(e) == "it" \in DOMAIN e
 \* current_mode() is read after every call on an iterator and must be the specified mode
@@ -42,7 +42,7 @@ Step(e) ==
     [] e.op = "modename"  -> DoModeName(e.it, e.k, e.res)
     [] OTHER              -> FALSE        \* "panic" and anything unknown
 
-TNext == l <= Len(Events) /\ Step(Events[l]) /\ l' = l + 1
+TNext == pos <= Len(Events) /\ Step(Events[pos]) /\ pos' = pos + 1
 
 TSpec == TInit /\ [][TNext]_tvars
 
